@@ -39,6 +39,8 @@ type c08pcase struct {
 	U           string  `json:"u,omitempty"`
 	A0          int     `json:"a0,omitempty"`
 	B0          int     `json:"b0,omitempty"`
+	NoStats     bool    `json:"no_stats,omitempty"` // withStats=false
+	Inplace     bool    `json:"inplace,omitempty"`  // inplace=true: the two reads are given up to the callee
 }
 
 func c08pbytes(q []int) []byte {
@@ -54,8 +56,8 @@ func c08pmkseq(id, s string, q []int) *obiseq.BioSequence {
 }
 
 func c08pdesc(c *c08pcase) string {
-	return fmt.Sprintf("A=%s qA=%v B=%s qB=%v fast=%v rel=%v delta=%d gap=%g scale=%g minOverlap=%d minIdentity=%g",
-		c.A, c.QA, c.B, c.QB, c.Fast, c.Rel, c.Delta, c.Gap, c.Scale, c.MinOverlap, c.MinIdentity)
+	return fmt.Sprintf("A=%s qA=%v B=%s qB=%v fast=%v rel=%v delta=%d gap=%g scale=%g minOverlap=%d minIdentity=%g withStats=%v inplace=%v",
+		c.A, c.QA, c.B, c.QB, c.Fast, c.Rel, c.Delta, c.Gap, c.Scale, c.MinOverlap, c.MinIdentity, !c.NoStats, c.Inplace)
 }
 
 func c08pwalk(path []int, la, lb int) bool {
@@ -230,6 +232,7 @@ func c08peval(r *verifkit.Result, c *c08pcase) (out []c08pviol) {
 	// 1. the path AssemblePESequences will work on (PEAlign is a function of its arguments; part 0 checks that)
 	var path []int
 	var isLeft bool
+	var alignScore int
 	panicked := false
 	func() {
 		defer func() {
@@ -238,9 +241,9 @@ func c08peval(r *verifkit.Result, c *c08pcase) (out []c08pviol) {
 			}
 		}()
 		shifts := map[int]int{}
-		l, _, p, _, _, _ := obialign.PEAlign(c08pmkseq("A", c.A, c.QA), c08pmkseq("B", c.B, c.QB), c.Gap, c.Scale, c.Fast, c.Delta, c.Rel,
+		l, sc, p, _, _, _ := obialign.PEAlign(c08pmkseq("A", c.A, c.QA), c08pmkseq("B", c.B, c.QB), c.Gap, c.Scale, c.Fast, c.Delta, c.Rel,
 			obialign.MakePEAlignArena(la, lb), &shifts)
-		isLeft = l
+		isLeft, alignScore = l, sc
 		path = append([]int(nil), p...)
 	}()
 	if panicked {
@@ -262,7 +265,7 @@ func c08peval(r *verifkit.Result, c *c08pcase) (out []c08pviol) {
 			}
 		}()
 		shifts := map[int]int{}
-		cons = AssemblePESequences(sa, sb, c.Gap, c.Scale, c.Delta, c.MinOverlap, c.MinIdentity, true, false, c.Fast, c.Rel,
+		cons = AssemblePESequences(sa, sb, c.Gap, c.Scale, c.Delta, c.MinOverlap, c.MinIdentity, !c.NoStats, c.Inplace, c.Fast, c.Rel,
 			obialign.MakePEAlignArena(la, lb), &shifts)
 	}()
 	r.Trans(1)
@@ -271,6 +274,12 @@ func c08peval(r *verifkit.Result, c *c08pcase) (out []c08pviol) {
 		return
 	}
 	r.Count("assembled", 1)
+	if c.NoStats {
+		r.Count("assembled_without_stats", 1)
+	}
+	if c.Inplace {
+		r.Count("assembled_inplace", 1)
+	}
 	seq := string(cons.Sequence())
 	qual := cons.Qualities()
 	annot := cons.Annotations()
@@ -301,23 +310,42 @@ func c08peval(r *verifkit.Result, c *c08pcase) (out []c08pviol) {
 
 	gotAli, okAli := c08pint(annot, "ali_length")
 	if !okAli {
-		add("AssemblePESequences/ali_length-missing", "no integer ali_length annotation (%v)", annot)
+		if !c.NoStats { // without statistics the statement demands no annotation but mode
+			add("AssemblePESequences/ali_length-missing", "no integer ali_length annotation (%v)", annot)
+		}
 	} else if gotAli != ali {
 		add("AssemblePESequences/"+mode+"/ali_length", "ali_length=%d, %s", gotAli, geom)
+	}
+
+	// the score annotation is the score of the alignment the record was built from
+	if gotScore, okScore := c08pint(annot, "score"); okScore {
+		r.Count("score_annotations_compared", 1)
+		if gotScore != alignScore {
+			add("AssemblePESequences/"+mode+"/score-annotation", "score=%d but PEAlign reports %d for the same arguments; %s", gotScore, alignScore, geom)
+		}
+	} else if !c.NoStats {
+		add("AssemblePESequences/score-missing", "no integer score annotation (%v)", annot)
 	}
 
 	// expected mode from the thresholds, when the statement leaves no doubt
 	region := true // every aligned column holds two identical plain bases with non-zero qualities
 	differs := false
 	unclear := false
+	paired, same, unclearN := 0, 0, 0 // columns holding two bases; of which surely identical; of which open
 	for k := lead; k < ncol-trail; k++ {
 		switch {
 		case colA[k] == 0 || colB[k] == 0:
 			region, differs = false, true
 		case !c08pisACGT(string([]byte{colA[k], colB[k]})) || cqa[k] == 0 || cqb[k] == 0:
 			unclear = true
+			paired++
+			unclearN++
 		case colA[k] != colB[k]:
 			region, differs = false, true
+			paired++
+		default:
+			paired++
+			same++
 		}
 	}
 	wantMode := ""
@@ -326,12 +354,37 @@ func c08peval(r *verifkit.Result, c *c08pcase) (out []c08pviol) {
 		wantMode = "join"
 	case c.MinIdentity <= 0:
 		wantMode = "alignment"
-	case ali == 0 || unclear:
+	case ali == 0:
 		wantMode = ""
-	case c.MinIdentity >= 1 && differs:
-		wantMode = "join"
-	case region:
-		wantMode = "alignment"
+	case c.MinIdentity >= 1:
+		switch {
+		case unclear:
+		case differs:
+			wantMode = "join"
+		case region:
+			wantMode = "alignment"
+		}
+	default:
+		// fractional threshold: the statement does not say whether inner gap columns count in the
+		// denominator nor how IUPAC / quality-0 columns count: the mode is demanded only when the lowest
+		// reading (gaps counted, open columns as mismatches) and the highest reading (gaps not counted,
+		// open columns as matches) of the identity fall on the same side of the threshold
+		idMin := float64(same) / float64(ali)
+		idMax := 0.0
+		if paired > 0 {
+			idMax = float64(same+unclearN) / float64(paired)
+		}
+		switch {
+		case idMin >= c.MinIdentity:
+			wantMode = "alignment"
+			r.Count("mode_decided_by_fractional_identity", 1)
+			if idMin == c.MinIdentity {
+				r.Count("mode_decided_identity_equal_to_threshold", 1)
+			}
+		case idMax < c.MinIdentity:
+			wantMode = "join"
+			r.Count("mode_decided_by_fractional_identity", 1)
+		}
 	}
 	if gotMode != "alignment" && gotMode != "join" {
 		add("AssemblePESequences/mode-missing", "mode annotation is %v", annot["mode"])
@@ -375,7 +428,9 @@ func c08peval(r *verifkit.Result, c *c08pcase) (out []c08pviol) {
 			gotA, okA := c08pint(annot, "seq_a_single")
 			gotB, okB := c08pint(annot, "seq_b_single")
 			if !okA || !okB {
-				add("AssemblePESequences/seq_single-missing", "seq_a_single / seq_b_single missing (%v)", annot)
+				if !c.NoStats {
+					add("AssemblePESequences/seq_single-missing", "seq_a_single / seq_b_single missing (%v)", annot)
+				}
 			} else {
 				if okAli && gotA+gotB+gotAli != len(seq) {
 					add("AssemblePESequences/"+mode+"/single+ali!=length", "seq_a_single=%d seq_b_single=%d ali_length=%d, sequence length %d; %s", gotA, gotB, gotAli, len(seq), geom)
@@ -664,13 +719,16 @@ func TestVerifC08P(t *testing.T) {
 		{false, false, 0, 1, 0.5}, {true, true, 2, 1, 0.5}}
 	r.Bound("p_configs", "exact, fast{rel,abs} x delta{0,2} at gap 2 scale 1; exact and fast-rel-delta2 at gap 1 scale 0.5")
 	k := 0
+	// withStats=false and/or inplace=true (everything else runs with withStats=true, inplace=false)
+	flagSets := [][2]bool{{true, false}, {false, true}, {true, true}}
+	r.Bound("p_flags", "withStats=false / inplace=true / both: every read pair and configuration at one threshold setting (min overlap 1, min identity 0.5 in i; 4, 0.9 in ii)")
 
 	// (i) all short pairs
 	lmax := 3
 	if thorough {
 		lmax = 4
 	}
-	r.Bound("p_i_lengths", fmt.Sprintf("acgt, 1..%d x 1..%d; min overlap {1,3} x min identity {0,1}", lmax, lmax))
+	r.Bound("p_i_lengths", fmt.Sprintf("acgt, 1..%d x 1..%d; min overlap {1,3} x min identity {0,0.5,1}", lmax, lmax))
 	reads := verifkit.AllStrings("acgt", 1, lmax)
 	for _, a := range reads {
 		for _, b := range reads {
@@ -684,10 +742,14 @@ func TestVerifC08P(t *testing.T) {
 				qa, qb := c08pquals(pat, len(a), false), c08pquals(pat, len(b), true)
 				for _, cf := range cfgs {
 					for _, mo := range []int{1, 3} {
-						for _, mi := range []float64{0, 1} {
+						for _, mi := range []float64{0, 0.5, 1} {
 							run(c08pcase{Kind: "pair", A: a, B: b, QA: qa, QB: qb, Fast: cf.Fast, Rel: cf.Rel, Delta: cf.Delta, Gap: cf.Gap, Scale: cf.Scale,
 								MinOverlap: mo, MinIdentity: mi})
 						}
+					}
+					for _, fl := range flagSets {
+						run(c08pcase{Kind: "pair", A: a, B: b, QA: qa, QB: qb, Fast: cf.Fast, Rel: cf.Rel, Delta: cf.Delta, Gap: cf.Gap, Scale: cf.Scale,
+							MinOverlap: 1, MinIdentity: 0.5, NoStats: fl[0], Inplace: fl[1]})
 					}
 				}
 			}
@@ -705,7 +767,7 @@ func TestVerifC08P(t *testing.T) {
 		lmaxU = 22
 	}
 	r.Bound("p_ii_sources", srcs)
-	r.Bound("p_ii_fragment_lengths", fmt.Sprintf("%d..%d; min overlap {1,4,8} x min identity {0,1}", lmin, lmaxU))
+	r.Bound("p_ii_fragment_lengths", fmt.Sprintf("%d..%d; min overlap {1,4,8} x min identity {0,0.5,0.9,1}", lmin, lmaxU))
 	pats := []string{"u40", "alt"}
 	if thorough {
 		pats = []string{"u40", "alt", "ramp", "zero"}
@@ -773,10 +835,14 @@ func TestVerifC08P(t *testing.T) {
 						qa, qb := c08pquals(pat, len(va), false), c08pquals(pat, len(vb), true)
 						for _, cf := range cfgs {
 							for _, mo := range []int{1, 4, 8} {
-								for _, mi := range []float64{0, 1} {
+								for _, mi := range []float64{0, 0.5, 0.9, 1} {
 									run(c08pcase{Kind: "geom", A: va, B: vb, QA: qa, QB: qb, Fast: cf.Fast, Rel: cf.Rel, Delta: cf.Delta, Gap: cf.Gap, Scale: cf.Scale,
 										MinOverlap: mo, MinIdentity: mi, U: vu, A0: g.a0, B0: g.b0})
 								}
+							}
+							for _, fl := range flagSets {
+								run(c08pcase{Kind: "geom", A: va, B: vb, QA: qa, QB: qb, Fast: cf.Fast, Rel: cf.Rel, Delta: cf.Delta, Gap: cf.Gap, Scale: cf.Scale,
+									MinOverlap: 4, MinIdentity: 0.9, U: vu, A0: g.a0, B0: g.b0, NoStats: fl[0], Inplace: fl[1]})
 							}
 						}
 					}
@@ -794,4 +860,9 @@ func TestVerifC08P(t *testing.T) {
 	r.RequireNonVacuous("mode_decided_alignment")
 	r.RequireNonVacuous("reassembly_demanded_fast")
 	r.RequireNonVacuous("reassembly_demanded_exact")
+	r.RequireNonVacuous("assembled_without_stats")
+	r.RequireNonVacuous("assembled_inplace")
+	r.RequireNonVacuous("score_annotations_compared")
+	r.RequireNonVacuous("mode_decided_by_fractional_identity")
+	r.RequireNonVacuous("mode_decided_identity_equal_to_threshold")
 }
